@@ -62,7 +62,12 @@ def main():
                     if f.is_file():
                         shutil.copy2(f, dst / f.name)
             meta = json.loads((out / "meta.json").read_text()) if (out / "meta.json").exists() else {}
-            line = f"{name}: confirmed={meta.get('confirmed_independently')} detected={meta.get('detected')} related={meta.get('detected_by_related')} rc={r.returncode}"
+            if "kept as" not in r.stdout:
+                # seedkeep did not confirm the change on the current /repo (tests fail, or the demo no longer fails with
+                # the change / no longer passes without it): the old meta.json is left as it is - say so
+                line = f"{name}: NOT CONFIRMED on the current /repo (meta.json left unchanged) rc={r.returncode}"
+            else:
+                line = f"{name}: confirmed={meta.get('confirmed_independently')} detected={meta.get('detected')} related={meta.get('detected_by_related')} rc={r.returncode}"
             print(line, flush=True)
             return line
         finally:
